@@ -55,6 +55,29 @@ def backends(d, base='a'):
 
 # ----------------------------------------------------------------------------- rule-breaking edits
 
+def compile_isar_all(sc, d, base='a'):
+    """the same schema through the isar front-end (+ the patch rules for what the XML cannot say): (outcome, message)"""
+    import prophyc
+    from harness.gen import isar
+    os.makedirs(d, exist_ok=True)
+    src = os.path.join(d, base + '.xml')
+    with open(src, 'w') as f:
+        f.write(isar.to_isar(sc))
+    args = ['--isar']
+    lines = isar.patch_lines(sc)
+    if lines:
+        with open(os.path.join(d, base + '.patch'), 'w') as f:
+            f.write('\n'.join(lines) + '\n')
+        args += ['--patch', os.path.join(d, base + '.patch')]
+    try:
+        py_impl.run_prophyc(args + ['--python_out', d, '--cpp_full_out', d, '--cpp_out', d, src])
+        return 'ok', ''
+    except prophyc.ProphycError as e:
+        return 'ProphycError', str(e)
+    except Exception as e:  # noqa
+        return type(e).__name__, str(e)[:300]
+
+
 def find_struct(sc, pred):
     c = [d for d in sc.decls if isinstance(d, S.Struct) and pred(d)]
     return c
@@ -135,6 +158,16 @@ def edits(rng, sc):
         e = copy.deepcopy(sc)
         e.decls.append(S.Enum('BrkE', [(enums[0].members[0][0], 3)]))
         yield 'enumerator name used twice across enums', e
+
+
+ISAR_INEXPRESSIBLE = set()     # edits the XML rendering cannot carry (none so far)
+
+
+def classify_isar(case, detail):
+    """D117: the isar front-end refuses enumerators sharing one value (spelled alike)"""
+    if 'Duplicate Enum value' in detail.get('what', ''):
+        return 'D117'
+    return None
 
 
 RESERVED = ['class', 'delete', 'new', 'template', 'namespace', 'E', 'None', 'def', 'import', 'lambda']
@@ -358,11 +391,12 @@ def directed_case(root, k, opt, files, main):
     return 'ok', '', bad
 
 
-def trees_of(sc):
+def trees_of(sc, isar=False):
+    from harness.gen import isar as I
     out = []
     for n in S.type_names(sc) + [d.name for d in sc.decls if isinstance(d, S.Enum)]:
         try:
-            out.append(S.tree(sc, n))
+            out.append(S.tree(sc, n, I.isar_sizer) if isar else S.tree(sc, n))
         except Exception:  # noqa  (a tree cannot be built for e.g. an unresolved reference)
             out.append(None)
     return out
@@ -379,6 +413,7 @@ def run_c12(tier):
     root = tempfile.mkdtemp(prefix='prophy-verif-')
     try:
         reqs, rows = [], []
+        ireqs, irows = [], []
         n = 0
         for si in range(chk.scale(24, 120)):
             sc = S.Gen(chk.rng, n_decls=7, shared_sizers=False).schema()
@@ -399,6 +434,23 @@ def run_c12(tier):
             if all(t is not None for t in trees):
                 rows.append((casej, outcome == 'ok', None))
                 reqs.append([{'op': 'accepts', 't': t} for t in trees])
+            # the same valid schema through the isar front-end
+            idir = os.path.join(root, 'iv%d' % si)
+            ioutcome, imsg = compile_isar_all(sc, idir)
+            icase = {'schema': text, 'front_end': 'isar (+patch)', 'rule': None}
+            chk.count(('isar', text), False)
+            chk.bump('valid:isar')
+            itrees = trees_of(sc, isar=True)
+            if all(t is not None for t in itrees) and 'Duplicate Enum value' not in imsg:
+                irows.append((icase, ioutcome == 'ok'))
+                ireqs.append([{'op': 'accepts', 't': t} for t in itrees])
+            if ioutcome != 'ok':
+                chk.property_violation(icase, {'what': 'a valid schema was rejected by the isar front-end: %s %s' % (ioutcome, imsg[:300])}, classify_isar)
+            else:
+                bad = {k: v for k, v in backends(idir).items() if v}
+                if bad:
+                    chk.property_violation(icase, {'what': 'prophyc --isar succeeded but a generated artifact is unusable', 'backends': bad}, classify_isar)
+            shutil.rmtree(idir, ignore_errors=True)
             for rule, e in edits(chk.rng, sc):
                 etext = S.to_prophy(e)
                 ed = os.path.join(root, 'e%d' % n)
@@ -417,6 +469,21 @@ def run_c12(tier):
                     rows.append((ecase, outcome == 'ok', None))
                     reqs.append([{'op': 'accepts', 't': t} for t in trees])
                 shutil.rmtree(ed, ignore_errors=True)
+                # the rule breaker through the isar front-end: the model-level validation has to refuse it as well
+                if rule not in ISAR_INEXPRESSIBLE:
+                    ioutcome, imsg = compile_isar_all(e, ed + 'i')
+                    chk.count(('isar', etext), True)
+                    chk.bump('edit:isar:' + rule)
+                    itrees = trees_of(e, isar=True)
+                    if all(t is not None for t in itrees) and 'duplicate type name' not in rule and 'across enums' not in rule and 'Duplicate Enum value' not in imsg:
+                        irows.append((dict(ecase, front_end='isar (+patch)'), ioutcome == 'ok'))
+                        ireqs.append([{'op': 'accepts', 't': t} for t in itrees])
+                    if ioutcome == 'ok':
+                        chk.property_violation(dict(ecase, front_end='isar (+patch)'), {'what': "rule breaker '%s' was accepted by prophyc --isar" % rule,
+                                                                                          'backends': backends(ed + 'i')})
+                    elif ioutcome != 'ProphycError':
+                        chk.property_violation(dict(ecase, front_end='isar (+patch)'), {'what': "rule breaker '%s' ended in %s instead of a diagnostic" % (rule, ioutcome), 'message': imsg})
+                    shutil.rmtree(ed + 'i', ignore_errors=True)
             shutil.rmtree(d, ignore_errors=True)
         # reserved identifiers (known finding D40)
         for word in chk.scale(RESERVED[:4] + ['has_x'], RESERVED + ['has_x']):
@@ -473,6 +540,15 @@ def run_c12(tier):
             chk.corr_compared += 1
             if model_front != accepted:
                 chk.correspondence_mismatch('Accept.front = prophyc accepts the schema', casej, accepted, {'front': [x['front'] for x in a]})
+        # the model-level validation (every front-end): Accept.model of the trees the isar rendering denotes = prophyc --isar accepts
+        ians = client.batch([r for group in ireqs for r in group])
+        k = 0
+        for (casej, accepted), group in zip(irows, ireqs):
+            a = ians[k:k + len(group)]
+            k += len(group)
+            chk.corr_compared += 1
+            if all(x['model'] for x in a) != accepted:
+                chk.correspondence_mismatch('Accept.model = prophyc --isar accepts the schema', casej, accepted, {'model': [x['model'] for x in a]})
     finally:
         shutil.rmtree(root, ignore_errors=True)
     return chk.finish()
